@@ -66,11 +66,10 @@ Proof.
   destruct (good_term E a (forallb_In _ _ _ W Ia)) as [G _]. exact G.
 Qed.
 
-Lemma sgood_atom r args : ident r = true -> forallb (wf_term E) args = true ->
-  sgood E (show_atom E (Atom r args)).
+Lemma sgood_call r (xs : list str) : ident r = true -> Forall (fun x => tgood E x) xs ->
+  sgood E (r ++ 40 :: join_cs xs ++ [41]).
 Proof.
-  intros I W. rewrite show_atom_eq. pose proof (args_tgood args W) as TA.
-  unfold ident in I. destruct r as [|c r]; try discriminate.
+  intros I TA. unfold ident in I. destruct r as [|c r]; try discriminate.
   apply tgood_wrap_paren; auto.
   - discriminate.
   - cbn [app first_nws forallb] in *. apply andb_true_iff in I as [I _]. rewrite (idc_nws c I). reflexivity.
@@ -82,6 +81,9 @@ Proof.
   - apply not_lt_last_join. eapply Forall_impl; [|exact TA]. intros x G.
     split. apply G. apply (tgood_ne E x G).
 Qed.
+Lemma sgood_atom r args : ident r = true -> forallb (wf_term E) args = true ->
+  sgood E (show_atom E (Atom r args)).
+Proof. intros I W. rewrite show_atom_eq. apply sgood_call; auto. apply args_tgood; auto. Qed.
 
 Lemma parse_atom_rt r args : wf_atom E (Atom r args) = true ->
   parse_atom E (show_atom E (Atom r args)) = Some (Atom r args).
@@ -200,10 +202,6 @@ Proof.
   - apply andb_true_iff in Hp as [Hx _]. apply negb_true_iff in Hx. rewrite Hx. reflexivity.
   - apply andb_true_iff in Hp as [_ Hp]. apply andb_true_iff in Hr as [_ Hr]. rewrite IH by auto. reflexivity.
 Qed.
-Lemma str_eqb_sym a b : str_eqb a b = str_eqb b a.
-Proof.
-  revert b; induction a as [|x a IH]; destruct b as [|y b]; cbn; auto. rewrite N.eqb_sym, IH. reflexivity.
-Qed.
 Lemma atom_not_hnsw r args : ident r = true -> str_eqb r (lit "hnsw_nearest"%string) = false ->
   starts_with hnsw_prefix (show_atom E (Atom r args)) = false.
 Proof.
@@ -255,13 +253,120 @@ Proof.
     destruct o; cbn [app opv]; repeat (rewrite not_lt_last_cons by (try discriminate; exact NR)); apply Gr.
 Qed.
 
+(* ------------------------------------------------------------------ hnsw_nearest(..) *)
+Definition hnsw_args (idx : str) (q : term) (k : N) (idv dv : str) (ef : option N) : list str :=
+  [34 :: idx ++ [34]; show_term E q; show_N k; idv; dv] ++ match ef with Some e => [show_N e] | None => [] end.
+Lemma hnsw_text idx q k idv dv ef :
+  show_bpred E (BHnsw idx q k idv dv ef)
+  = lit "hnsw_nearest"%string ++ 40 :: join_cs (hnsw_args idx q k idv dv ef) ++ [41].
+Proof.
+  unfold show_bpred, hnsw_args, join_cs. destruct ef; cbn [app join];
+    change (lit "hnsw_nearest(""") with (lit "hnsw_nearest" ++ [40; 34]);
+    change (lit """, ") with [34; 44; 32]; repeat (rewrite <- ?app_assoc; cbn [app]); reflexivity.
+Qed.
+Lemma wf_uvar_parts s : wf_uvar s = true ->
+  ident s = true /\ exists c t, s = c :: t /\ is_aupper c = true.
+Proof.
+  unfold wf_uvar. intros H. apply andb_true_iff in H as [I U]. split; auto.
+  destruct s as [|c t]; [discriminate|]. eauto.
+Qed.
+Lemma tgood_ident s : ident s = true -> tgood E s.
+Proof.
+  intros I. unfold ident in I. destruct s as [|c s]; [discriminate|].
+  apply (sg_t E). apply sgood_lc. discriminate. eapply forallb_impl; [apply idc_lc|exact I].
+Qed.
+Lemma tgood_digits n : tgood E (show_N n).
+Proof.
+  apply (sg_t E). apply sgood_lc. apply show_N_nonempty.
+  eapply forallb_impl; [|apply show_N_digits]. intros c D. apply idc_lc, digit_idc, D.
+Qed.
+Lemma sgood_quoted idx : wf_str idx = true -> sgood E (34 :: idx ++ [34]).
+Proof.
+  intros WI. apply sgood_plain.
+  - reflexivity.
+  - change (34 :: idx ++ [34]) with ((34 :: idx) ++ [34]). apply last_nws_snoc. reflexivity.
+  - cbn [forallb]. rewrite forallb_app. unfold wf_str in WI. rewrite WI. reflexivity.
+Qed.
+Lemma hnsw_args_tgood idx q k idv dv ef :
+  wf_str idx = true -> wf_term E q = true -> ident idv = true -> ident dv = true ->
+  Forall (fun x => tgood E x) (hnsw_args idx q k idv dv ef).
+Proof.
+  intros WI WQ I1 I2. unfold hnsw_args. apply Forall_app. split.
+  - apply Forall_cons; [|apply Forall_cons; [|apply Forall_cons; [|apply Forall_cons; [|apply Forall_cons; [|apply Forall_nil]]]]].
+    + apply (sg_t E). apply sgood_quoted. exact WI.
+    + destruct (good_term E q WQ) as [Gq _]. exact Gq.
+    + apply tgood_digits.
+    + apply tgood_ident; auto.
+    + apply tgood_ident; auto.
+  - destruct ef; [apply Forall_cons; [apply tgood_digits|apply Forall_nil]|apply Forall_nil].
+Qed.
+Lemma wf_hnsw_parts idx q k idv dv ef : wf_bpred E (BHnsw idx q k idv dv ef) = true ->
+  wf_str idx = true /\ wf_term E q = true /\ 1 <= k /\ k < 18446744073709551616 /\
+  wf_uvar idv = true /\ wf_uvar dv = true /\
+  match ef with Some e => e < 18446744073709551616 | None => True end.
+Proof.
+  cbn [wf_bpred]. intros W. repeat (apply andb_true_iff in W as [W ?]).
+  repeat split; auto. apply N.leb_le; auto. apply N.ltb_lt; auto.
+  destruct ef; auto. apply N.ltb_lt; auto.
+Qed.
+Lemma sgood_hnsw idx q k idv dv ef : wf_bpred E (BHnsw idx q k idv dv ef) = true ->
+  sgood E (show_bpred E (BHnsw idx q k idv dv ef)).
+Proof.
+  intros W. destruct (wf_hnsw_parts _ _ _ _ _ _ W) as (WI & WQ & _ & _ & U1 & U2 & _).
+  rewrite hnsw_text. apply sgood_call. reflexivity.
+  apply hnsw_args_tgood; auto; [apply (wf_uvar_parts idv U1)|apply (wf_uvar_parts dv U2)].
+Qed.
+
+Lemma skipn_app_len {A} (a b : list A) : skipn (length a) (a ++ b) = b.
+Proof. induction a; cbn; auto. Qed.
+Lemma trim_digits n : trim (32 :: show_N n) = show_N n.
+Proof. rewrite trim_sp. apply (tgood_trim E). apply tgood_digits. Qed.
+Lemma trim_ident_sp s : ident s = true -> trim (32 :: s) = s.
+Proof. intros I. rewrite trim_sp. apply (tgood_trim E). apply tgood_ident; auto. Qed.
+
+Lemma try_hnsw_rt idx q k idv dv ef : wf_bpred E (BHnsw idx q k idv dv ef) = true ->
+  try_hnsw E (show_bpred E (BHnsw idx q k idv dv ef)) = Some (Some (BHnsw idx q k idv dv ef)).
+Proof.
+  intros W. pose proof (sgood_hnsw _ _ _ _ _ _ W) as G.
+  destruct (wf_hnsw_parts _ _ _ _ _ _ W) as (WI & WQ & K1 & K2 & U1 & U2 & EF).
+  destruct (wf_uvar_parts idv U1) as (I1 & c1 & t1 & E1 & A1).
+  destruct (wf_uvar_parts dv U2) as (I2 & c2 & t2 & E2 & A2).
+  unfold try_hnsw. rewrite (tgood_trim E _ (sg_t _ _ G)).
+  assert (FUEL : parse_term E (term_fuel (show_bpred E (BHnsw idx q k idv dv ef))) (32 :: show_term E q) = Some q).
+  { rewrite parse_term_sp. apply parse_term_fuel; auto. unfold term_fuel. rewrite hnsw_text.
+    rewrite app_length. cbn [length]. rewrite app_length.
+    assert (IN : In (show_term E q) (hnsw_args idx q k idv dv ef)) by (unfold hnsw_args; cbn; auto).
+    pose proof (length_join_in (show_term E q) (hnsw_args idx q k idv dv ef) IN). lia. }
+  remember (term_fuel (show_bpred E (BHnsw idx q k idv dv ef))) as fuel eqn:EFU in *. clear EFU.
+  rewrite hnsw_text.
+  change (lit "hnsw_nearest"%string ++ 40 :: join_cs (hnsw_args idx q k idv dv ef) ++ [41])
+    with (hnsw_prefix ++ join_cs (hnsw_args idx q k idv dv ef) ++ [41]).
+  rewrite starts_with_self. rewrite app_assoc, last_is_snoc. cbn [andb negb].
+  rewrite <- app_assoc, skipn_app_len, removelast_last.
+  rewrite split_args_join.
+  2:{ unfold hnsw_args. discriminate. }
+  2:{ eapply Forall_impl; [|apply (hnsw_args_tgood idx q k idv dv ef WI WQ I1 I2)].
+      intros x Gx. split. apply Gx. apply (tgood_ne _ _ Gx). }
+  unfold hnsw_args. cbn [app rev List.map].
+  rewrite (tgood_trim E (34 :: idx ++ [34]) (sg_t E _ (sgood_quoted idx WI))).
+  cbn [first_is]. ceq. rewrite last_is_cons_snoc. ceq. rewrite length_cons_snoc. cbn [negb].
+  rewrite inner_cons_snoc, FUEL, trim_digits, (parse_usize_show k K2).
+  assert (KZ : (k =? 0) = false) by (apply N.eqb_neq; lia). rewrite KZ.
+  rewrite (trim_ident_sp idv I1), (trim_ident_sp dv I2). rewrite E1, E2.
+  rewrite (is_upper_ascii E c1 A1), (is_upper_ascii E c2 A2). cbn [negb].
+  destruct ef as [e|]; cbn [List.map].
+  - rewrite trim_digits, (parse_usize_show e EF). reflexivity.
+  - reflexivity.
+Qed.
+
 Lemma wf_atom_parts r args : wf_atom E (Atom r args) = true ->
   ident r = true /\ forallb (wf_term E) args = true.
 Proof. cbn [wf_atom]. intros W. apply andb_true_iff in W. exact W. Qed.
 
 Lemma bgood_bpred b : wf_bpred E b = true -> bgood (show_bpred E b).
 Proof.
-  destruct b as [[r args]|[r args]|l o r|]; cbn [wf_bpred]; intros W; try discriminate.
+  destruct b as [[r args]|[r args]|l o r|idx q k idv dv ef]; intros W;
+    [| | |apply bgood_of_sgood; apply sgood_hnsw; exact W]; cbn [wf_bpred] in W.
   - apply andb_true_iff in W as [W _]. destruct (wf_atom_parts r args W) as [I WA].
     apply bgood_of_sgood. apply sgood_atom; auto.
   - destruct (wf_atom_parts r args W) as [I WA]. pose proof (sgood_atom r args I WA) as G.
@@ -305,7 +410,10 @@ Theorem parse_bpred_rt b : wf_bpred E b = true -> parse_bpred E (show_bpred E b)
 Proof.
   intros W. pose proof (bgood_bpred b W) as G. unfold parse_bpred.
   rewrite (trim_id _ (bg_first _ G) (bg_last _ G)).
-  destruct b as [[r args]|[r args]|l o r|]; cbn [wf_bpred] in W; try discriminate.
+  destruct b as [[r args]|[r args]|l o r|idx q k idv dv ef].
+  4:{ assert (F33 : first_is 33 (show_bpred E (BHnsw idx q k idv dv ef)) = false) by (rewrite hnsw_text; reflexivity).
+      rewrite F33, (try_hnsw_rt _ _ _ _ _ _ W). reflexivity. }
+  all: cbn [wf_bpred] in W.
   - apply andb_true_iff in W as [W NH]. apply negb_true_iff in NH.
     destruct (wf_atom_parts r args W) as [I WA]. cbn [show_bpred].
     destruct (atom_first r args I) as (c & t & EQ & IC).
